@@ -2,7 +2,9 @@
 """Development helper: re-run, for every stored seeded change, the check(s) recorded as
 catching it, against a scratch worktree of /repo's HEAD with the patch applied (never /repo
 itself), from private copies of /verif so that parallel trials share neither replay/ nor
-evidence/.  Prints one line per change; exit 1 if any change is no longer reported.
+evidence/.  Prints one line per change; exit 1 if any change is no longer reported (MISSED).  A stored patch
+that conflicts with later fix: commits is PATCH-DOES-NOT-APPLY; one that applies but whose own
+demonstration passes on this HEAD is NO-LONGER-A-VIOLATION; neither is a miss.
 
 usage: tools/reverify_seeded.py [workers=4] [seeded ids...]
 """
@@ -65,7 +67,15 @@ def trial(args):
         if r.returncode == 1:
             caught = True
             break
+    demo_rc = None
+    if not caught and os.path.exists(os.path.join(d, "demo.py")):
+        # /repo has moved on since the change was stored: does its author's demonstration still
+        # fail with the patch?  If not, the change no longer breaks the property on this HEAD
+        # (a later fix: commit closed the hole it used) and there is nothing to catch.
+        demo_rc = sh(f"cd {wt} && PYTHONPATH={wt}/src /venv/bin/python {d}/demo.py").returncode
     sh(f"git -C {wt} reset -q --hard HEAD; git -C {wt} clean -fdq")
+    if not caught and demo_rc == 0:
+        return sid, "NO-LONGER-A-VIOLATION", res
     if not caught and any(rc == 2 for _c, rc, _s in res):
         return sid, "HARNESS-ERROR", res
     return sid, "caught" if caught else "MISSED", res
